@@ -3,6 +3,7 @@ frame, evaluate_new_data returns exactly the rows `is` of the training matrix.""
 import re
 import warnings
 
+import numpy as np
 import pandas as pd
 
 import designs
@@ -62,6 +63,38 @@ DEFECT_ATOMS = ["binary(k)", "binary(k, 2)", "B(h, 'q')", "C(f, levels=lv_f)", "
 CORPUS = ["y ~ C(f, levels=lv_f)", "y ~ C(co) + x", "y ~ binary(k)", "y ~ binary(k, 2) + f",
           "y ~ scale(x) + (scale(x) | g)", "y ~ poly(x, 3) + bs(z, df=5)", "y ~ co + cu + (x | co)",
           "y ~ 0 + (h + z)*x", "y ~ (f | g + h) - (1 | h)", "y ~ center(x):f + (center(x) | g)"]
+# a stateful transform REGISTERED BY THE USER through the public decorator, whose keyword options
+# act every time it is applied, not only when its parameters are fitted (eleventh seeded wave, C06_Q:
+# keyword arguments no longer passed once `params_set`); registered for the duration of `explore`
+USER_CORPUS = ["y ~ clipz_c06(x, clip=1) + f", "y ~ clipz_c06(z, clip=0.5, shift=2):f + (clipz_c06(x, clip=1) | g)",
+               "y ~ 0 + h + clipz_c06(x, shift=-1):clipz_c06(z, clip=0.75)",
+               "y ~ clipz_c06(x) + (0 + clipz_c06(z, 1.25, shift=0.5) | h)",
+               "y ~ center(clipz_c06(x, clip=1)) + clipz_c06(center(x), clip=0.5)"]
+
+
+def register_user_transform():
+    from formulae.transforms import register_stateful_transform
+
+    class ClipZ:
+        """(x - median) / spread of the TRAINING column, clipped to [-clip, clip], plus shift"""
+        __transform_name__ = "clipz_c06"
+
+        def __init__(self):
+            self.params_set = False
+            self.median = None
+            self.spread = None
+
+        def __call__(self, x, clip=None, shift=0.0):
+            x = np.asarray(x, dtype=float)
+            if not self.params_set:
+                self.median = float(np.median(x))
+                self.spread = float(np.max(np.abs(x - self.median))) or 1.0
+                self.params_set = True
+            out = (x - self.median) / self.spread * 2
+            if clip is not None:
+                out = np.clip(out, -clip, clip)
+            return out + shift
+    register_stateful_transform(ClipZ)
 
 
 KNOT_ATOMS = ["bs(x, knots=kn_x)", "bs(z, knots=kn_z)", "bs(x, knots=kn_x, degree=2)",
@@ -322,7 +355,19 @@ def explore(tier, seed, res=None, replay=None):
             cases.append((f, len(cases)))
         for _ in range(n_cases):
             cases.append((None, len(cases)))
+        # (appended after the generated cases: their seed paths stay what they were)
+        for f in USER_CORPUS:
+            cases.append((f, len(cases)))
     open_ids = {k["id"] for k in known_findings("C06")}
+    from formulae.transforms import TRANSFORMS
+    register_user_transform()
+    try:
+        return _explore(tier, seed, res, replay, cases, open_ids)
+    finally:
+        TRANSFORMS.pop("clipz_c06", None)
+
+
+def _explore(tier, seed, res, replay, cases, open_ids):
     reqs_spec, reqs_model, reqs_pipe, owners = [], [], [], []
     for f, path in cases:
         r = rng_for(seed, "c06", path)
